@@ -4,12 +4,12 @@ package timesafeguard
 
 import (
 	"encoding/json"
-	"math"
 	"encoding/pem"
 	"flag"
 	"fmt"
 	"io"
 	"log"
+	"math"
 	"math/rand"
 	"net"
 	"net/http"
